@@ -36,8 +36,12 @@ import numpy as np
 from core import Driver, Failure, kvs, nl, unq, unql
 
 ID = "C18"
-PROOF_MODULES = ["PyribsProofs.C18"]
+from genf import translate  # noqa: E402,F401  (regenerates lean/PyribsGen/Formulas.lean from the tree under check)
+PROOF_MODULES = ["PyribsProofs.C18", "PyribsGen.Formulas", "PyribsProofs.GenFOpt"]
 THEOREMS = [
+    # update rules of the gradient optimizers, regenerated from the source (harness/translate/formulas.py)
+    "Pyribs.GenFProofs.ascent_matches",
+    "Pyribs.GenFProofs.adam_matches",
     # T18.1
     "Pyribs.C18.weights_of_values",
     "Pyribs.C18.weights_pos_decreasing_sum_one",
